@@ -153,6 +153,9 @@ class Walker:
     def add_cmp(self, st, l, op, r):
         """Assume l op r; returns False if the path became infeasible."""
         a, b = self.lin(l, st), self.lin(r, st)
+        return self.add_cmp_forms(st, a, op, b)
+
+    def add_cmp_forms(self, st, a, op, b):
         if a is None or b is None:
             return True
         d = L.sub(a, b)          # l - r
@@ -222,6 +225,12 @@ class Walker:
         st.truth[c.get("n")] = truth
         if c.get("k") == "Un" and c["op"] == "!":
             return self.assume(st, c["a"][0], not truth)
+        if c.get("k") == "Ref":
+            fl = st.user.get("$flags", {}).get(pp(c))
+            if fl is not None:
+                # a flag that holds the outcome of a comparison made earlier on this path (in the values of that time)
+                op, a, b = fl
+                return self.add_cmp_forms(st, a, op if truth else NEG[op], b)
         if c.get("k") == "Bin" and c["op"] in CMP_OPS:
             op = c["op"] if truth else NEG[c["op"]]
             l, r = c["a"][0], c["a"][1]
@@ -265,12 +274,14 @@ class Walker:
         if k == "Decl":
             for d in x["decls"]:
                 if d.get("init") is not None:
+                    self.note_flag(st, d["ref"]["name"], d["init"])
                     fm = self.lin(d["init"], st)
                     self.assign(st, d["ref"]["name"], fm)
             return
         if k == "Bin" and x["op"] in ASSIGN_OPS:
             key = pp(sk(x["a"][0]))
             if x["op"] == "=":
+                self.note_flag(st, key, x["a"][1])
                 fm = self.lin(x["a"][1], st)
             elif x["op"] in ("+=", "-="):
                 a, b2 = self.lin(x["a"][0], st), self.lin(x["a"][1], st)
@@ -299,6 +310,27 @@ class Walker:
                 a = self.lin(y["a"][0], st)
                 d = 1 if "++" in y["op"] else -1
                 self.assign(st, key, None if a is None else (a[0], a[1] + d))
+
+    def note_flag(self, st, key, rhs):
+        """`flag = (a < b)`: remember the comparison in the symbolic values of this moment."""
+        fl = st.user.get("$flags")
+        r = sk(rhs)
+        while r is not None and r.get("k") == "Paren":
+            r = sk(r["a"][0])
+        rec = None
+        if r is not None and r.get("k") == "Bin" and r["op"] in CMP_OPS and r["op"] != "!=" and \
+                not _conv_signed(r["a"][0]) and not _conv_signed(r["a"][1]):
+            a, b = self.lin(r["a"][0], st), self.lin(r["a"][1], st)
+            if a is not None and b is not None:
+                rec = (r["op"], a, b)
+        if rec is None and not (fl and key in fl):
+            return
+        fl = dict(fl or {})
+        if rec is None:
+            del fl[key]
+        else:
+            fl[key] = rec
+        st.user["$flags"] = fl
 
     def assign(self, st, key, fm):
         if fm is None:
